@@ -505,8 +505,10 @@ pub fn gen_gs(r: &mut Rng) -> GS {
     GS { chars, spell }
 }
 
-const KEYS: [&str; 16] =
-    ["a", "b", "a", "", "aa", "ab", "A", "é", "z", "\u{ffff}", "\u{10000}", "a\u{0}", "k\n", "\u{7f}", "c", "b"];
+const KEYS: [&str; 20] = [
+    "a", "b", "a", "", "aa", "ab", "A", "é", "z", "\u{ffff}", "\u{10000}", "a\u{0}", "k\n", "\u{7f}", "c", "b", "q\"", "b\\", "s/",
+    "\"\\/",
+];
 
 fn gen_key(r: &mut Rng) -> GS {
     if r.chance(1, 6) {
